@@ -15,7 +15,28 @@ def in_loop(B, b):
 
 
 def folded(B, o):
-    return any(q.ends(v, *FOLD) for v in B.via(o))
+    if any(q.ends(v, *FOLD) for v in B.via(o)):
+        return True
+    # a captured variable that was folded before the closure was built (`let wanted = key.to_lowercase(); xs.find(|k| fold(k) == wanted)`)
+    F = B.F
+    fn = B.fn
+    if F is None or fn["kind"] != "Closure":
+        return False
+    par = F.fns.get(fn.get("parent") or "")
+    if par is None:
+        return False
+    ups = [x[1] for x in B.origins(o) if x[0] == "param" and x[1] in B.upvar.values()]
+    if not ups:
+        return False
+    Bp = mir.Body(par, F)
+    for blk in Bp.blocks:
+        for s_ in blk["stmts"]:
+            if s_["k"] == "assign" and s_["rv"]["k"] == "agg" and s_["rv"].get("def") == fn["id"]:
+                for i_, op in enumerate(s_["rv"]["ops"]):
+                    if B.upvar.get(i_) in ups and not folded(Bp, op):
+                        return False
+                return True
+    return False
 
 
 def descendants(F, fid):
@@ -37,12 +58,39 @@ SENSITIVE = ("next", "nth", "last", "take", "skip", "take_while", "skip_while", 
 SEQ_OK = ("is_empty", "len", "contains", "deref", "as_slice")
 
 
+def only_formatted(B, l, depth=8):
+    """every use of local l ends in a format argument (log text): the value cannot influence a decision"""
+    us = B.uses_of(l)
+    if not us or depth <= 0:
+        return False
+    for u in us:
+        if u[0] == "assign" and not u[2]["lhs"]["p"] and (u[2]["rv"]["k"] in ("use", "ref", "cast") or
+                                                         (u[2]["rv"]["k"] == "agg" and u[2]["rv"]["ak"] in ("tuple", "array"))):
+            # copies, borrows and the argument tuple / array that format_args! builds
+            if not only_formatted(B, u[2]["lhs"]["l"], depth - 1):
+                return False
+        elif u[0] == "callarg" and ("fmt::rt::Argument" in (u[3] or u[2] or "") or "fmt::Argument" in (u[3] or u[2] or "")):
+            continue
+        elif u[0] == "callarg" and q.ends(q.base_name(u[3] or u[2] or ""), "deref", "as_str", "as_ref", "borrow", "clone", "to_string"):
+            if not only_formatted(B, u[4]["dest"]["l"], depth - 1):
+                return False
+        else:
+            return False
+    return True
+
+
 def presence_only(B, l):
-    """the Option in local l is only asked whether it is Some: discriminant reads and is_some/is_none, the payload is never taken"""
+    """the Option in local l is only asked whether it is Some: discriminant reads and is_some/is_none; the payload is never taken -
+    or is taken only to be printed in a log line"""
     for u in B.uses_of(l):
         if u[0] == "assign":
             rv = u[2]["rv"]
             if rv["k"] == "discr" and not rv["p"]["p"]:
+                continue
+            if rv["k"] in ("use", "ref") and rv.get("o", {}).get("k") in ("copy", "move") and rv["o"]["p"]["p"] and not u[2]["lhs"]["p"] \
+                    and only_formatted(B, u[2]["lhs"]["l"]):
+                continue
+            if rv["k"] == "ref" and rv["p"]["p"] and not u[2]["lhs"]["p"] and only_formatted(B, u[2]["lhs"]["l"]):
                 continue
             if rv["k"] == "ref" and not rv["p"]["p"] and presence_only_ref(B, u[2]["lhs"]["l"]):
                 continue
@@ -82,7 +130,7 @@ def iterator_calls(F, fns):
                 out.append((f, B, bi, short, True, "a quantifier / aggregate over all elements"))
             elif short in SELECTING:
                 po = not t["dest"]["p"] and presence_only(B, t["dest"]["l"])
-                out.append((f, B, bi, short, po, "only the presence of a result is used" if po else "hands out the first matching element"))
+                out.append((f, B, bi, short, po, "only the presence of a result is used (or the hit is merely logged)" if po else "hands out the first matching element to code that can decide on it"))
             elif short in SENSITIVE:
                 if is_seq and short in ("remove", "index") and any(x in name for x in ("HashMap", "HashSet", "BTreeMap")):
                     continue
@@ -332,6 +380,9 @@ def run(F, R, tier):
                 while cur is not None and cur["k"] in ("copy", "move") and hops < 8:
                     hops += 1
                     d = B.single_def(cur["p"]["l"])
+                    if d and d[2] == "assign" and d[3]["rv"]["k"] == "use" and not d[3]["lhs"]["p"]:
+                        cur = d[3]["rv"]["o"]          # `let chain = ..; set.extend(chain.cloned())`: through the binding
+                        continue
                     if not d or d[2] != "call":
                         break
                     w_, r_ = mir.callee_of(d[3])
